@@ -99,8 +99,53 @@ def run_kani_unit(name, spec, tier):
     return res
 
 
+def run_frame_unit(name, spec, tier):
+    """Frame conditions for the concurrency clause of C01: (1) rustc discharges the Send + Sync
+    obligations and the `&SecretKey` signature of sign when it type-checks the replay crate;
+    (2) a source scan shows the crate has no construct that could share mutable state."""
+    import glob
+    t0 = time.time()
+    res = {"unit": name, "backend": "rustc+scan", "obligations": 0, "discharged": 0, "failures": [],
+           "undecided": [], "functions": spec.get("functions", []), "cmds": [], "solver_time_s": 0.0,
+           "wall_s": 0.0, "trusted": list(spec.get("trusted", [])), "bounded": [], "samples": [],
+           "notes": spec.get("complete", "")}
+    binp, err = build_replay()
+    res["cmds"].append("cargo build --offline (replay crate: fn c01_frame_obligations)")
+    res["obligations"] += 8
+    if binp:
+        res["discharged"] += 8
+        res["samples"].append({"rustc": "SecretKey/PublicKey/Signature<512|1024>: Send + Sync; sign: fn(&[u8], &SecretKey) -> Signature"})
+    else:
+        if "Send" in err or "Sync" in err or "mismatched types" in err:
+            res["failures"].append({"unit": name, "backend": "rustc", "where": "replay/src/main.rs c01_frame_obligations",
+                                    "kind": "type obligation", "desc": "Send + Sync / &SecretKey obligation rejected by rustc",
+                                    "loc": "", "output": err[-2000:], "cex": None})
+        else:
+            res["undecided"].append("replay crate did not build: " + err[-600:])
+    pats = [r"\bunsafe\b", r"static\s+mut\b", r"UnsafeCell", r"RefCell", r"\bCell<", r"thread_local!", r"lazy_static!",
+            r"\bMutex\b", r"\bAtomic\w+", r"\bstatic\s+[A-Z_]+\s*:"]
+    from . import extract as X
+    for f in sorted(glob.glob(os.path.join(REPO, "falcon-rust", "src", "*.rs"))):
+        src = open(f).read()
+        masked = X.mask(src)
+        for pat in pats:
+            res["obligations"] += 1
+            hits = [m for m in re.finditer(pat, masked) if not X._in_test_mod(masked, m.start())]
+            if hits:
+                ln = src.count("\n", 0, hits[0].start()) + 1
+                res["failures"].append({"unit": name, "backend": "scan", "where": os.path.basename(f),
+                                        "kind": "frame condition", "desc": "construct that can share mutable state: /%s/" % pat,
+                                        "loc": "falcon-rust/src/%s:%d" % (os.path.basename(f), ln), "output": src.splitlines()[ln - 1], "cex": None})
+            else:
+                res["discharged"] += 1
+    res["wall_s"] = time.time() - t0
+    return res
+
+
 def run_unit(name, tier):
     spec = U.UNITS[name]
+    if spec["backend"] == "frame":
+        return run_frame_unit(name, spec, tier)
     if spec["backend"] == "kani":
         return run_kani_unit(name, spec, tier)
     elif spec["backend"] == "verus":
